@@ -63,13 +63,21 @@ var (
 	sHotSteps  []uint64 // in count mode: step indices at which a hot site was hit
 	sRecordHot bool
 	sSiteHot   []bool
+	sSiteSync  []bool
+	sSyncSteps []uint64 // in count mode: step indices right after a synchronising statement
+	nSyncSites int
 	sInOp      []int32 // per task: index of op in flight (for overlap stats)
 )
 
 func init() {
 	sSiteHot = make([]bool, len(apd.VerifSites))
+	sSiteSync = make([]bool, len(apd.VerifSites))
 	for i, s := range apd.VerifSites {
 		sSiteHot[i] = s.Hot
+		sSiteSync[i] = s.Sync
+		if s.Sync {
+			nSyncSites++
+		}
 	}
 }
 
@@ -84,8 +92,13 @@ func hook(site int32) {
 	case modeCount:
 		sClock++
 		sOpSteps++
-		if sRecordHot && sSiteHot[site] {
-			sHotSteps = append(sHotSteps, sOpSteps)
+		if sRecordHot {
+			if sSiteHot[site] {
+				sHotSteps = append(sHotSteps, sOpSteps)
+			}
+			if sSiteSync[site] {
+				sSyncSteps = append(sSyncSteps, sOpSteps)
+			}
 		}
 		if sOpBudget != 0 && sOpSteps > sOpBudget {
 			sOpSteps = 0
